@@ -139,7 +139,7 @@ def gen(rp, rw, tier):
     nem = []
     if rw.random() < 0.35:
         for _ in range(rw.randint(1, 3)):
-            nem.append(["nem", "locale", rw.choice(locales)])
+            nem.append(["nem", "locale", rw.choice(locales + ["xx"]) if rw.random() < 0.1 else rw.choice(locales)])
     common.add_nemesis_and_barriers(rw, actors, nem, restart_p=0.15)
     steps = sum(len(a["ops"]) for a in actors) * 25
     return {"world": world, "pool": pool, "actors": actors, "horizon": steps, "step_cap": 20000}
